@@ -84,7 +84,12 @@ def isinstance_term(eng, st, v, c):
         if isinstance(v, NoneV):
             return z3.BoolVal(False)
         if isinstance(v, Exc):
-            return z3.BoolVal(exc_isinstance(v.cls, c.name))
+            yes = [x for x in v.classes() if exc_isinstance(x, c.name)]
+            if len(yes) == len(v.classes()):
+                return z3.BoolVal(True)
+            if not yes:
+                return z3.BoolVal(False)
+            return z3.Const(f"exc{v.id}_isinstance_{c.name}", BOOL)
         if isinstance(v, Ref):
             o = st.get(v)
             if isinstance(o, Obj):
@@ -140,6 +145,14 @@ def b_getattr(eng, st, args, kwargs, node):
                 return [(st, args[2])]
         outs = []
         has = z3.Function("py_hasattr_" + a, U, BOOL)(eng.as_u(st, v))
+        dflt = args[2]
+        if isinstance(dflt, (Z, NoneV)) and (isinstance(dflt, NoneV) or dflt.kind == "bool") and isinstance(v, (Opaque, Fn, Cls)):
+            # result = attr if present else default: one opaque value whose truthiness is the conditional (no fork)
+            base = v if isinstance(v, Opaque) else Opaque(getattr(v, "name", "x"), eng.as_u(st, v))
+            attr_v = eng._memo_attr.setdefault((base.t.get_id(), a), Opaque(f"{base.tag}.{a}"))
+            r = Opaque(f"getattr({base.tag},{a},default)")
+            eng._memo_truth[r.t.get_id()] = z3.If(has, eng.truth(st, attr_v), eng.truth(st, dflt))
+            return [(st, r)]
         for s1, h in eng.branch(st, has):
             if h:
                 rs = [(s2, r) for s2, r in eng.getattr(s1, v if not isinstance(v, Fn) else Opaque(v.name, eng.as_u(s1, v)), a) if not is_raised(r)]
